@@ -88,6 +88,7 @@ def check(ctx):
     class Only(util.PrefixedCtx):
         def ob(self, rule, key, ok, site="", detail="", nontrivial=True, undecided=False):
             if rule == "R06.2": return super().ob(rule, key, ok, site, detail, nontrivial, undecided)
+            if rule == "R06.1" and "::end_all_streams::" in key: return super().ob(rule, key, ok, site, detail, nontrivial, undecided)   # every stream is TOLD to end (cancel before the wait loop), whatever the timeout
             if rule == "R06.3" and "::gracefully_end_stream::" in key: return super().ob(rule, key, ok, site, detail, nontrivial, undecided)   # the end request reaches end_stream with the caller's id
             return ok
     C06.check(Only(ctx, "R07.3"))
